@@ -2942,7 +2942,8 @@ class NamespaceOps:
                 b = self.model.boxes.pop(n)
                 nn = nkey + n[len(okey):]
                 b.name = nn
-                if b.uvv is None and not b.noselect:
+                if b.uvv is None:
+                    # (a \Noselect placeholder, too: it got its UIDVALIDITY when it was deleted, under its old name)
                     b.renamed_in = True
                 self.model.boxes[nn] = b
                 if nn in self.model.name_uvv_max and b.uvv is not None:
